@@ -20,6 +20,7 @@ Inductive val :=
 | VBool (b : bool)
 | VInt (z : Z)
 | VQ (q : Q)
+| VInf (pos : bool)               (* float('inf') / float('-inf') *)
 | VStr (s : string)
 | VList (l : list val)
 | VTuple (l : list val)
